@@ -2,7 +2,8 @@
    lexer's producer (Model/GcsLex.v).  It models the repaired code ("fix: gcs Parse drains the
    lexer on return", "fix: gcs parser reports a missing closing parenthesis", "fix: gcs parser requires a comma
    between function parameters", "fix: gcs parser rejects a token that cannot start an
-   expression").
+   expression", "fix: gcs parser rejects a second default in a switch", "fix: gcs parser rejects a
+   repeated field name in a map literal").
    Executable; no proofs here.
 
    * the look-ahead slice [p.token] with the index [p.pos] is a zipper: [consumed] holds
@@ -131,6 +132,10 @@ Fixpoint has_dup (l : list string) : bool :=
   | x :: r => existsb (string_eqb x) r || has_dup r
   end.
 
+(* _, dup := expr.Fields[k] *)
+Definition has_key {A} (k : string) (m : list (string * A)) : bool :=
+  existsb (fun kv => string_eqb k (fst kv)) m.
+
 Definition is_if_or_block (x : node) : option stmt :=
   match x with
   | NStmt (SIf c b e) => Some (SIf c b e)
@@ -212,7 +217,10 @@ with p_map_loop (n : nat) (arr : list expr) (fields : list (string * expr)) (ps 
     pb (nx, s) <- next s;
     pb (af, s) <-
       (if typ_is ele ItemIdentifier && typ_is nx ItemAssign then
-         pb (e, s) <- p_expr n Lowest s; ROk (arr, fields_set (lt_val ele) e fields) s
+         pb (e, s) <- p_expr n Lowest s;
+         (* a field name occurs at most once ("fix: gcs parser rejects a repeated field name ...") *)
+         if has_key (lt_val ele) fields then RErr s
+         else ROk (arr, fields_set (lt_val ele) e fields) s
        else
          pb (e, s) <- p_expr n Lowest (pbackup (pbackup s)); ROk (arr ++ [e], fields) s);
     let (arr2, fields2) := af in
@@ -391,11 +399,17 @@ with p_switch_loop (n : nat) (c : expr) (cases : list casestmt) (def : block) (p
         p_switch_loop n c (cases ++ [Case cc body]) def s
       else RErr s
     else if typ_is t KeywordDefault then
-      pb (k, s) <- peek s;
-      if typ_is k ItemColon then
-        pb (body, s) <- p_case_body n s;
-        p_switch_loop n c cases body s
-      else RErr s
+      (* at most one default ("fix: gcs parser rejects a second default in a switch"): checked
+         before the colon *)
+      match def with
+      | Block _ => RErr s
+      | BNil =>
+          pb (k, s) <- peek s;
+          if typ_is k ItemColon then
+            pb (body, s) <- p_case_body n s;
+            p_switch_loop n c cases body s
+          else RErr s
+      end
     else RErr s
   end
 with p_case_body (n : nat) (ps : pstate) {struct n} : PR block :=
